@@ -233,6 +233,9 @@ pub fn history_strategy() -> impl Strategy<Value = History> {
             (6, prop_oneof![3 => 20u16..70, 3 => 60u16..70, 2 => 28u16..36, 1 => 1u16..5, 1 => 95u16..100].prop_map(Step::Silence).boxed()),
             (1, gen::uplink_dr_strategy(reg).prop_map(Step::SetDr).boxed()),
             (1, prop_oneof![1 => Just(false), 2 => Just(true)].prop_map(Step::SetAdr).boxed()),
+            // the session taken out of the live device and handed back (nb): the count of uplinks since the
+            // last accepted downlink belongs to the session and stays
+            (2, any::<bool>().prop_map(|serde| Step::HandBack { serde }).boxed()),
         ];
         if class_c {
             sv.push((1, proptest::collection::vec(c12_recipe(), 0..2).prop_map(Step::RxcListen).boxed()));
@@ -241,7 +244,7 @@ pub fn history_strategy() -> impl Strategy<Value = History> {
         (first, gen::uplink_dr_strategy(reg), proptest::collection::vec(proptest::strategy::Union::new_weighted(sv), 2..=14)).prop_map(move |(mut pre, dr0, steps)| {
             pre.push(Step::SetDr(dr0));
             pre.extend(steps);
-            History { cfg: DevCfg { region, join_bias: None, front, board: (14, 0) }, activation: if otaa { Activation::Otaa } else { Activation::Abp { fcnt_up: 0, fcnt_down: None } }, board: Board::default(), rng_script: vec![], rng_seed: seed, steps: pre }
+            History { cfg: DevCfg { region, join_bias: None, front, board: (14, 0) }, activation: if otaa { Activation::Otaa } else { Activation::Abp { fcnt_up: 0, fcnt_down: None } }, board: Board { nb_meddle: gen::meddle_pattern(seed), ..Default::default() }, rng_script: vec![], rng_seed: seed, steps: pre }
         })
     })
 }
